@@ -11,6 +11,7 @@ import XmlDiffModel.Model.Action
 import XmlDiffModel.Model.Patch
 import XmlDiffModel.Model.Match
 import XmlDiffModel.Model.Script
+import XmlDiffModel.Model.TextFormat
 import Std.Data.HashMap
 open XmlDiffModel
 
@@ -283,6 +284,38 @@ def doDiff (args : List String) : String :=
     | _, _, _, _ => "bad-op"
   | _ => "bad-op"
 
+def showPErr : PErr → String
+  | .valueError => "valueError" | .indexError => "indexError" | .attributeError => "attributeError"
+  | .typeError => "typeError" | .badPath => "badPath"
+
+def doFmt (args : List String) : String :=
+  match args with
+  | [ss] => match decScript ss with
+    | some sc => "ok " ++ encStr (some (formatScript sc))
+    | none => "bad-op"
+  | _ => "bad-op"
+
+def doParse (args : List String) : String :=
+  match args with
+  | [ts] => match decStr ts with
+    | some (some t) => match parseScript t with
+      | .ok sc => "ok " ++ encScript sc
+      | .error e => "err " ++ showPErr e
+    | _ => "bad-op"
+  | _ => "bad-op"
+
+def doJson (args : List String) : String :=
+  match args with
+  | [ts] => match decStr ts with
+    | some v =>
+      let d := jsonDump v
+      let back := match jsonLoad d with
+        | some w => encStr w
+        | none => "fail"
+      "ok " ++ encStr (some d) ++ " " ++ back
+    | none => "bad-op"
+  | _ => "bad-op"
+
 def doOrders (args : List String) : String :=
   match args with
   | [ts] => match decTree ts with
@@ -303,6 +336,9 @@ def handle (line : String) : String :=
   | "script" :: args => doScript args
   | "diff" :: args => doDiff args
   | "orders" :: args => doOrders args
+  | "fmt" :: args => doFmt args
+  | "parse" :: args => doParse args
+  | "json" :: args => doJson args
   | _ => "bad-op"
 
 partial def loop (h : IO.FS.Stream) (out : IO.FS.Stream) : IO Unit := do
